@@ -111,7 +111,6 @@ JudgeCompile(r) ==
     ELSE IF IsV(prep.v, "unmod") THEN [kinds |-> <<"unmodelled">>, info |-> "setup"]
     ELSE IF IsV(prep.v, "err") THEN [kinds |-> <<"runtime-error">>, info |-> prep.v.err]
     ELSE IF Len(prep.scans) # 1 THEN [kinds |-> <<"no-scan-call">>, info |-> "scans"]
-    ELSE IF SemUnspecified(t) THEN [kinds |-> <<>>, info |-> "unspecified semantics"]
     ELSE
       LET static == ScopeKinds(prep.data[2]) \o ResourceKinds(prep, WithImplicitPrint(t))
                     \o (IF framed # NeedsFramed(t) THEN <<"mode-mismatch">> ELSE <<>>)
@@ -119,7 +118,8 @@ JudgeCompile(r) ==
                     \o ScanArgKinds(prep, r.o, c.renders[1].path)
           now0 == c.t0
           allFiles == DirectedFiles(WithImplicitPrint(t), now0)
-          files == IF Static THEN <<>> ELSE IF Len(allFiles) > MaxFiles THEN SubSeq(allFiles, 1, MaxFiles) ELSE allFiles
+          \* where find's meaning of a construct is not definite only the static checks apply
+          files == IF Static \/ SemUnspecified(t) THEN <<>> ELSE IF Len(allFiles) > MaxFiles THEN SubSeq(allFiles, 1, MaxFiles) ELSE allFiles
           d0 == FirstDisagreement(t, prep, framed, iomap, files, 1, now0)
           d1 == IF d0.kinds = <<>> \/ c.t1 = c.t0 THEN d0 ELSE FirstDisagreement(t, prep, framed, iomap, files, 1, c.t1)
           d == IF d1.kinds = <<>> THEN d1 ELSE d0
